@@ -1299,6 +1299,9 @@ var specUFs = map[string]specUF{
 	"ProofRoot":     {"uf!proofRoot", extType(pkgBitcoin, "Hash32")},
 	"BlockHeaderOf": {"uf!blockHeader", extType(pkgWire, "BlockHeader")},
 	"ContractAction": {"uf!ContractAction", basicType(types.Bool)},
+	// TokenizedAction(blob, isTest): what the Tokenized protocol library decodes from a locking script
+	// (the nil interface when the script is not a Tokenized action)
+	"TokenizedAction": {"uf!TokenizedAction", func(e *Engine) types.Type { return types.NewInterfaceType(nil, nil) }},
 	"Relevant":      {"uf!Relevant", basicType(types.Bool)},
 	"KeyEq":         {"uf!PublicKeyEqual", basicType(types.Bool)},
 	"SigVerify":     {"uf!SigVerify", basicType(types.Bool)},
